@@ -92,17 +92,20 @@ def withInit (h0 : Heap) (i : Init) (f : SV → Except Err SV) : RefRes :=
   | some sv => RefRes.ofSV (f sv)
   | none => .err typeErr
 
+/-- the reduction proper, given the items -/
+def refKind (h0 : Heap) (s : FoldSpec) (items : List Val) : RefRes :=
+  match s.kind with
+  | .fold => withInit h0 s.init (refReduce (foldStep s.op h0) items)
+  | .flatten =>
+    if s.lazy then .new (.tuple "chain" items)
+    else withInit h0 s.init (refReduce (foldStep s.op h0) items)
+  | .merge => withInit h0 s.init (refReduce (mergeStep s.op h0) items)
+
 /-- one evaluation of a spec object, as a value -/
 def refSpec (env : Env) (h0 : Heap) (s : FoldSpec) (target : Val) : RefRes :=
   match refItems env h0 s.sub target with
   | .error e => .err e
-  | .ok items =>
-    match s.kind with
-    | .fold => withInit h0 s.init (refReduce (foldStep s.op h0) items)
-    | .flatten =>
-      if s.lazy then .new (.tuple "chain" items)
-      else withInit h0 s.init (refReduce (foldStep s.op h0) items)
-    | .merge => withInit h0 s.init (refReduce (mergeStep s.op h0) items)
+  | .ok items => refKind h0 s items
 
 /-- `flatten(levels = n+1)`: n times `chain.from_iterable`, then added into `init()`;
     `init='lazy'`: n+1 times `chain.from_iterable` (a chain object, shown by the items
@@ -194,14 +197,17 @@ def showInput (h : Heap) (a : Nat) : R :=
   | some (.tuple c xs) => if c == "tuple" then .fresh (.tuple c xs) else .input a
   | _ => .input a
 
-/-- what the property expects evaluation to show -/
-def expectR (env : Env) (h0 : Heap) (p : Prog) (target : Val) : R :=
-  match refProg env h0 p target with
+/-- a reference result as an observer sees it -/
+def showRef (env : Env) (h0 : Heap) : RefRes → R
   | .err e => errR env e
   | .imm v => .imm v
   | .same (.ref a) => showInput h0 a
   | .same v => .imm v
   | .new o => showNew env h0 o
+
+/-- what the property expects an evaluation to show -/
+def expectR (env : Env) (h0 : Heap) (p : Prog) (target : Val) : R :=
+  showRef env h0 (refProg env h0 p target)
 
 /-- addresses of the earlier results -/
 def prevIndex (earlier : List (Except Err Val)) (a : Nat) : Option Nat :=
